@@ -463,7 +463,8 @@ def structure_cases():
         for ids in ([0], [1], [0, 1], [1, 1, 0, 1]):
             cels.append((f"tmb{bits}n{len(ids)}i{ids[0]}", [tm_cel_bits(bits, ids)]))
     tilesets = [("ts-", []), ("ts0n1", [tileset(0, 1)]), ("ts0n2", [tileset(0, 2)]), ("ts1n2", [tileset(1, 2)]),
-                ("ts0n0", [tileset(0, 0)]), ("ts0n2+1n1", [tileset(0, 2), tileset(1, 1)])]
+                ("ts0n0", [tileset(0, 0)]), ("ts0n2+1n1", [tileset(0, 2), tileset(1, 1)]),
+                ("ts7n1+1n2+0n2", [tileset(7, 1), tileset(1, 2), tileset(0, 2)])]
     layers = [("img", layer(0, 0)), ("grp", layer(1, 0)), ("tm0", layer(2, 0)), ("tm1", layer(2, 1)), ("tm7", layer(2, 7))]
     def img(w, h, ctype=0):
         px = bytes([5, 6, 7, 255]) * (w * h)
@@ -556,6 +557,19 @@ def structure_cases():
         props += struct.pack("<IH", 1, 0x11) * (depth - 1) + struct.pack("<IH", 1, 3) + b"\x07"
         udp = mk_chunk(0x2020, struct.pack("<I", 1 | 4) + struct.pack("<H", 5) + b"hello" + struct.pack("<I", len(props) + 4) + props)
         out.append((f"ud-props-nested/{depth}", mk_header(1, 2, 2) + mk_frame([mk_layer(), udp, mk_layer(name=b"Z")])))
+    # a Tags chunk only in a LATER frame (ignored by the loader), followed by user data; with / without tags in frame 0
+    def tagsk(n):
+        p = struct.pack("<H", n) + bytes(8)
+        for t in range(n):
+            p += struct.pack("<HHBH", 0, 0, 0, 0) + bytes(6) + struct.pack("<I", 0) + struct.pack("<H", 1) + b"t"
+        return mk_chunk(0x2018, p)
+    for n0 in (0, 1, 2):
+        for n1 in (1, 2):
+            for nud in (0, 1, 2, 3):
+                for pre in (0, 1):
+                    f0 = [mk_layer()] + ([tagsk(n0)] if n0 else []) + ([ud] if pre else [])
+                    f1 = [tagsk(n1)] + [ud] * nud
+                    out.append((f"latetags/{n0}/{n1}/{nud}/{pre}", mk_header(2, 2, 2) + mk_frame(f0) + mk_frame(f1)))
     # tileset chunks whose declared sizes are extreme in all three fields at once
     for depth in (8, 16, 32):
         for count in (0xFFFFFFFF, 0x80000000, 0x40008001, 0x10000, 1):
@@ -727,8 +741,9 @@ def c19_extra(ctx, scale, res, files, model_obs, impl_obs):
     res.distribution["many-layer sprites"] = 1
 
 
-register("C19", wf_routine(CELS + RENDER + ["tilemap"], [("render", 200, 5000), ("tiles", 100, 3000), ("large", 4, 60)],
-         "generated sprites with frames != layers; the three cel routes, single-layer frames, tilemap images",
+register("C19", wf_routine(CELS + RENDER + ["tilemap", "iter", "iterx", "layers", "frames"], [("render", 200, 5000), ("tiles", 100, 3000), ("large", 4, 60)],
+         "generated sprites with frames != layers; the three cel routes (the layer route also through the layer iterator and "
+         "its adaptors: skip, step_by, next then nth), single-layer frames, tilemap images",
          spec_backed="the model's single cel function of (frame, layer) + C19.single_layer_frame_eq_cel / tilemap_view_cel",
          extra=c19_extra))
 register("C04", malformed_routine(no_panic_oracle, [], "field-aware boundary mutations (single and paired) of "
@@ -1093,6 +1108,22 @@ def c15_run(ctx, scale):
             tg = struct.pack("<H", nt) + bytes(8) + b"".join(
                 struct.pack("<HHBH", 0, 0, 3 if i == bad else i % 3, 0) + bytes(6) + bytes(4) + struct.pack("<H", 0) for i in range(nt))
             files.append((f"feat/anim-dir-unnamed/{nt}/{bad}", mk_header(1, 1, 1) + mk_frame([mk_layer(), mk_chunk(0x2018, tg)])))
+    # an unsupported feature in a chunk beyond the 65535th / 65536th of one frame (the 32-bit chunk count)
+    empty_path = mk_chunk(0x2017, b"")
+    late = {
+        "icc-profile": mk_chunk(0x2007, struct.pack("<HHI", 2, 0, 0) + bytes(8) + struct.pack("<I", 4) + b"icc!"),
+        "fixed-gamma": mk_chunk(0x2007, struct.pack("<HHI", 1, 1, 0x00023333) + bytes(8)),
+        "layer-type-3": mk_layer(ltype=3),
+        "blend-mode-19": mk_chunk(0x2004, struct.pack("<HHHHHHBBH", 1, 0, 0, 0, 0, 19, 255, 0, 0) + struct.pack("<H", 1) + b"L"),
+        "anim-dir-3": tags_chunk(3),
+        "chunk-type-2030": mk_chunk(0x2030, bytes(4)),
+    }
+    for nfill in (65534, 65535, 65536):
+        for what, ch in late.items():
+            chunks = [mk_layer()] + [empty_path] * nfill + [ch]
+            body = b"".join(chunks)
+            fr = struct.pack("<IHHHHI", 16 + len(body), 0xF1FA, 0xFFFF, 100, 0, len(chunks)) + body
+            files.append((f"feat/late-chunk/{what}/{len(chunks)}", mk_header(1, 1, 1) + fr))
     xr = [(c, b) for c, b in structure_cases() if c.split("/")[0] in ("exttileset", "tsdup")]
     xm, xi = run_both(xr, outcome_only=True)
     def xorc(cid, data, impl, model):
@@ -1298,7 +1329,8 @@ def c18_run(ctx, scale):
     nomodel = set()
     for nbig in (65535 + 256, 65536 + 256, 70000) if not ctx.quick else (65536 + 256,):
         ents = [((i >> 16) & 255, (i >> 8) & 255, i & 255, 255) for i in range(nbig)]
-        qs = [(0, 0, 5, 255), (0, 0, 255, 255), (0, 1, 0, 255), (0, 255, 255, 255), (1, 1, 1, 255), (0, 0, 5, 100)]
+        qs = [(0, 0, 5, 255), (0, 0, 255, 255), (0, 1, 0, 255), (0, 255, 255, 255), (1, 1, 1, 255), (0, 0, 5, 100),
+              (1, 0, 9, 255), (1, 0, 0, 255), (1, 0, 255, 255), (1, 0, 254, 255)]
         cid = f"mapbig{nbig}"
         reqs.append(f"UTIL {cid} mapper {pal_file(0, ents).hex()} 7 - {bytes(x for q in qs for x in q).hex()}")
         meta[cid] = ("mapper", 0, ents, 7, "-", qs)
@@ -1485,6 +1517,29 @@ def c13_run(ctx, scale):
         if not o[0].startswith("load err"):
             res.oracle_failures.append({"id": rid, "input_hex": data.hex(), "call": "AsepriteFile::read_file(path)",
                                         "what": "a truncated file did not fail to load through read_file: " + o[0][:100]})
+    # call histories through read_file: the whole file (twice), then a prefix of it on the same thread
+    hreqs, hmeta = [], {}
+    for cid, b in fbase[:30]:
+        end = end_of_last_frame(b)
+        if end is None or end > len(b):
+            continue
+        for k in sorted({end - 1, end - 2, end // 2, 128, max(0, end - 17)}):
+            if 0 <= k < end:
+                rid = f"filehist/{cid}@{k}"
+                hreqs.append(f"HISTORY {rid} {b.hex()} {b[:k].hex() or '-'} files")
+                hmeta[rid] = b[:k]
+    for profile in ("release", "relchk"):
+        ho, _ = vlib.run_impl(hreqs, profile)
+        for rid, data in hmeta.items():
+            res.evaluations += 1
+            res.compared += 1
+            o = ho.get(rid) or ["missing"]
+            if not o[0].startswith("load err") or any(l.startswith("differs") for l in o):
+                res.oracle_failures.append({"id": rid, "input_hex": data.hex(), "build_profile": profile,
+                                            "call": "AsepriteFile::read_file(whole file) twice, then read_file(prefix) on the same thread",
+                                            "what": "a truncated file did not fail to load through read_file after the whole file had been loaded on the same thread: "
+                                                    + " | ".join(o[:1] + [l for l in o if l.startswith("differs")])[:300]})
+    res.distribution["read_file histories"] = len(hreqs)
     # the big corpus files: they load, and cuts near their end do not
     bigf = [(c, b) for c, b in vlib.verif_corpus_wf(include_big=True) if len(b) >= 20000]
     bcases = []
@@ -1541,6 +1596,9 @@ def c14_run(ctx, scale):
         for cap in ([1, 2, 7, 64] if ctx.quick else [1, 2, 3, 5, 7, 8, 16, 31, 64]):
             add(f"bufreader{cap}", f"bufreader:{cap}", "same")
         add("file", "file", "same")
+        # read_file on a named pipe whose first read is short
+        for n in (1, 3, 5, 64, 129):
+            add(f"fifo{n}", f"fifo:{n}", "same")
         step = max(1, end // (25 if ctx.quick else end))
         for k in list(range(0, end, step)) + [end - 1]:
             code = kinds[(k // step) % len(kinds)]
@@ -1636,14 +1694,29 @@ def c14_run(ctx, scale):
                 hid = f"failhist/{an}@{off}->{bn}"
                 hreqs.append(f"HISTORY {hid} {a.hex()} {b.hex()} fail:{off}")
                 hmeta[hid] = (a, b)
-    mh, _ = vlib.run_model(vlib.load_lines([("big", big), ("mid", mid)]))
+    # a load that failed inside a damaged deflate stream, then a well-formed compressed file on the same thread
+    import zlib as _z
+    zpx = bytes((i * 13) % 256 for i in range(40 * 30 * 4))
+    good = mk_header(1, 8, 8) + mk_frame([mk_layer(), mk_chunk(0x2005, struct.pack("<HhhBH", 0, 0, 0, 255, 2) + bytes(7)
+                                         + struct.pack("<HH", 40, 30) + _z.compress(zpx))])
+    zbad = bytearray(_z.compress(zpx))
+    for pos, name in ((2, "blockhdr"), (len(zbad) // 2, "middle"), (len(zbad) - 2, "adler")):
+        zb = bytearray(zbad)
+        zb[pos] ^= 0xFF
+        bad = mk_header(1, 8, 8) + mk_frame([mk_layer(), mk_chunk(0x2005, struct.pack("<HhhBH", 0, 0, 0, 255, 2) + bytes(7)
+                                            + struct.pack("<HH", 40, 30) + bytes(zb))])
+        for bn, b in (("big", big), ("mid", mid), ("good", good)):
+            hid = f"corrupthist/{name}->{bn}"
+            hreqs.append(f"HISTORY {hid} {bad.hex()} {b.hex()}")
+            hmeta[hid] = (bad, b)
+    mh, _ = vlib.run_model(vlib.load_lines([("big", big), ("mid", mid), ("good", good)]))
     for profile in ("release", "relchk"):
         ho, _ = vlib.run_impl(hreqs, profile)
         for hid, (a, b) in hmeta.items():
             res.evaluations += 1
             res.compared += 1
             o = ho.get(hid) or ["missing"]
-            want = mh["big"] if hid.endswith("->big") else mh["mid"]
+            want = mh[hid.rsplit("->", 1)[1]]
             plain = [l for l in o if not l.startswith("mapperx")]
             bad = [l for l in o if l.startswith("differs") or "PANIC" in l or "failed-or-panicked" in l]
             if bad or plain != want:
@@ -1783,6 +1856,20 @@ def hostile_memory_inputs(ctx, scale):
         for t in range(ntags):
             p += struct.pack("<HHBH", fr, to, 0, 0) + bytes(6) + struct.pack("<I", 0) + struct.pack("<H", 0)
         out.append((f"tags-span/{ntags}/{fr}-{to}", mk_header(1, 4, 4) + mk_frame([mk_layer(), mk_chunk(0x2018, p)])))
+    # one large compressed cel followed by many tiny compressed cels (a buffer sized by the largest
+    # stream seen so far must not be reserved again for each); indexed and RGBA
+    for depth in (8, 32):
+        bpp = depth // 8
+        zbig = zlib.compress(bytes(2048 * 2048 * bpp), 9)
+        pal = [mk_chunk(0x2019, struct.pack("<III", 1, 0, 0) + bytes(8) + struct.pack("<HBBBB", 0, 1, 2, 3, 255))] if depth == 8 else []
+        f0 = mk_frame(pal + [mk_layer(), mk_chunk(0x2005, struct.pack("<HhhBH", 0, 0, 0, 255, 2) + bytes(7) + struct.pack("<HH", 2048, 2048) + zbig)])
+        tiny = mk_chunk(0x2005, struct.pack("<HhhBH", 0, 0, 0, 255, 2) + bytes(7) + struct.pack("<HH", 1, 1) + zlib.compress(bytes(bpp)))
+        out.append((f"big-then-tiny/{depth}", mk_header(101, 4, 4, depth) + f0 + mk_frame([tiny]) * 100))
+    # an indexed deflate bomb slightly above a power of two of pixels (8200 x 8200 = 2^26 + 131136)
+    zb = zlib.compress(bytes(8200 * 8200), 9)
+    pal = mk_chunk(0x2019, struct.pack("<III", 1, 0, 0) + bytes(8) + struct.pack("<HBBBB", 0, 1, 2, 3, 255))
+    out.append(("bomb-indexed/8200x8200", mk_header(1, 4, 4, 8) + mk_frame([pal, mk_layer(), mk_chunk(0x2005, struct.pack("<HhhBH", 0, 0, 0, 255, 2) + bytes(7)
+                                                                                     + struct.pack("<HH", 8200, 8200) + zb)])))
     # many tags chunks each declaring 65535 tags
     tags = mk_chunk(0x2018, struct.pack("<H", 65535) + bytes(8))
     out.append(("tags-declared", mk_header(1, 4, 4) + mk_frame([mk_layer()] + [tags] * 50)))
